@@ -541,7 +541,7 @@ def main(tier, seed):
         run.absorb(part)
     run.bounds = {"kind_classes": CLASSES, "singles": 6, "pairs": 36, "triples": 216,
                   "inference_programs": len(progs), "statements_per_phase": "<= 5 (all permutations by symbolic rank)",
-                  "phases": "<= 2 (both orders)"}
+                  "phases": "<= 3 (every order), entered directly and through infer_kinds(dag)"}
     run.selftests = selftests()
     if not all(run.selftests.values()):
         run.harness_errors.append("self-test failed: %r" % run.selftests)
